@@ -506,6 +506,9 @@ def generate(seed, tier, index, kf):
     }
     if r.random() < 0.3:
         prog["buggify"]["gc_every"] = r.choice((20, 200))
+    if r.random() < 0.15:
+        prog["buggify"]["cpu_p"] = r.choice((0.05, 0.3))  # computation takes time: the "yield after 50 ms" points fire
+        prog["buggify"]["cpu_max"] = r.choice((0.02, 0.08, 0.3))
     if r.random() < 0.12:
         prog["knobs"]["sock_buf"] = r.choice((128, 512, 2048))  # slow reader: the server's drain() waits between responses
     if r.random() < 0.3:
